@@ -370,6 +370,7 @@ class Inconclusive(Exception):
 
 
 def _shard_main(prop, args):
+    sys.setrecursionlimit(20000)
     spec = json.load(open(args.shard))
     mod = _load(prop)
     R = Recorder(spec)
